@@ -617,7 +617,7 @@ func confirmLimit() time.Duration {
 			return time.Duration(n) * time.Second
 		}
 	}
-	return 30 * time.Second
+	return 120 * time.Second
 }
 
 func fatalClass(stderr string) string {
